@@ -186,7 +186,7 @@ def signature(msg):
 
 def session_specs(tier):
     specs = []
-    t0, t1 = D.TERMINALS
+    t0, t1 = D.TERMINALS[0], D.TERMINALS[1]
     cands = [
         (t0, [('A1D1', .5), ('D2', .25)]),
         (t0, [('D1D1', .5), ('A1', .5)]),
